@@ -64,7 +64,7 @@ TOY_NOTE = ('SHA-256 abstracted at the repository\'s wrapper functions by a loop
 
 prop('C11',
      builds=[dict(crate='ext', filters=['c11_'])],
-     default=dict(mem=4, timeout={'quick': 300, 'thorough': 900}, cbmc_extra=['--max-field-sensitivity-array-size', os.environ.get('VERIF_FS', '512')]),
+     default=dict(mem=10, timeout={'quick': 400, 'thorough': 900}, cbmc_extra=['--max-field-sensitivity-array-size', os.environ.get('VERIF_FS', '512')]),
      overrides=[(r'h_(pprpl1p|ppl2rp|prprp|pprpp|ppl2r|l0p|pl0|prpl1|ppl1|pl1p|ppl1p)::', dict(tier='rotate')),
                 # load followed by push: CBMC cannot bound the peak vector rebuilt by load(), explores the
                 # hashbrown scratch map in root_node and does not finish (900 s) -> outside the claim
@@ -94,7 +94,7 @@ prop('C21',
      builds=[dict(crate='vm', filters=['c21_'])],
      default=dict(mem=6, timeout={'quick': 600, 'thorough': 2400}),
      overrides=[(r'c21_(div|divi|mod|modi|exp_small|exp_closed|expi_small|mlog|mldv|mul_full|niop_\w+)$', dict(tier='thorough'))],
-     min_harnesses={'quick': 27, 'thorough': 55},
+     min_harnesses={'quick': 24, 'thorough': 50},
      functions_encoded=['<fuel_asm::op::X as Execute>::execute for each covered opcode (fuel-vm/src/interpreter/executors/opcodes_impl.rs)',
                         'Interpreter::gas_charge / gas::gas_charge', 'interpreter::alu::{alu_capture_overflow, alu_boolean_overflow, alu_error, alu_set, alu_clear}',
                         'interpreter::internal::{inc_pc, set_flag}', 'constraints::reg_key::WriteRegKey::new'],
